@@ -236,41 +236,52 @@ upstream queries are exactly those of `dialSend` started there. -/
 theorem question_goes_to_selected_upstream (cfg : Cfg) (cache : Cache) (dst : Nat) (q : Question)
     (ans : Upstreams) (u : UpRef) (h : requestSelect cfg q = .to u)
     (hmiss : cache.lookup ⟨canonName q.name, q.qtype, scopeOf dst u⟩ = none) :
-    (handle cfg cache dst false (some q) ans).trace = (dialSend cfg ans 0 u).1 ∧
-    (dialSend cfg ans 0 u).1.head? = some u := by
+    (handle cfg cache dst false (some q) ans).trace = (dialSend cfg (some q) ans 0 u).1 ∧
+    (dialSend cfg (some q) ans 0 u).1.head? = some u := by
   constructor
   · simp only [handle, Option.getD_some, h, hmiss, Bool.false_eq_true, if_false]
-    cases hd : dialSend cfg ans 0 u with
+    cases hd : dialSend cfg (some q) ans 0 u with
     | mk t r => cases r <;> rfl
-  · rw [dialSend_step cfg ans 0 u (by decide)]
+  · rw [dialSend_step cfg (some q) ans 0 u (by decide)]
     cases ans 0 u with
     | none => rfl
-    | some r => cases hs : responseSelect cfg r u <;> simp [hs]
+    | some r =>
+      cases ha : answersQuestion (some q) r
+      · simp [ha]
+      · cases hs : responseSelect cfg r u <;> simp [hs, ha]
 
 /-- **What happens to an upstream answer** (one step of `dialSend` below the depth limit):
-no answer → error; accept → the answer as is; reject → the same message with the answer section
-emptied; another upstream → that upstream is asked next, one level deeper. -/
-theorem response_action (cfg : Cfg) (ans : Upstreams) (d : Nat) (u : UpRef) (h : d < maxDnsLookupDepth) :
-    (ans d u = none → dialSend cfg ans d u = ([u], .error .forwardFail)) ∧
-    (∀ r, ans d u = some r → responseSelect cfg r u = .accept → dialSend cfg ans d u = ([u], .ok r)) ∧
-    (∀ r, ans d u = some r → responseSelect cfg r u = .reject →
-        dialSend cfg ans d u = ([u], .ok { r with recs := [] })) ∧
-    (∀ r k, ans d u = some r → responseSelect cfg r u = .next k →
-        dialSend cfg ans d u = (u :: (dialSend cfg ans (d + 1) (.up k)).1, (dialSend cfg ans (d + 1) (.up k)).2)) ∧
-    (∀ r e, ans d u = some r → responseSelect cfg r u = .err e → dialSend cfg ans d u = ([u], .error e)) := by
-  refine ⟨?_, ?_, ?_, ?_, ?_⟩
-  · intro h0; rw [dialSend_step cfg ans d u h, h0]
-  · intro r h0 h1; rw [dialSend_step cfg ans d u h, h0]; simp only [h1]
-  · intro r h0 h1; rw [dialSend_step cfg ans d u h, h0]; simp only [h1]
-  · intro r k h0 h1; rw [dialSend_step cfg ans d u h, h0]; simp only [h1]
-  · intro r e h0 h1; rw [dialSend_step cfg ans d u h, h0]; simp only [h1]
+no answer → error; an answer to a different question → error (never routed, relayed or cached);
+accept → the answer as is; reject → the same message with the answer section emptied; another
+upstream → that upstream is asked next, one level deeper. -/
+theorem response_action (cfg : Cfg) (q? : Option Question) (ans : Upstreams) (d : Nat) (u : UpRef)
+    (h : d < maxDnsLookupDepth) :
+    (ans d u = none → dialSend cfg q? ans d u = ([u], .error .forwardFail)) ∧
+    (∀ r, ans d u = some r → answersQuestion q? r = false →
+        dialSend cfg q? ans d u = ([u], .error .questionMismatch)) ∧
+    (∀ r, ans d u = some r → answersQuestion q? r = true → responseSelect cfg r u = .accept →
+        dialSend cfg q? ans d u = ([u], .ok r)) ∧
+    (∀ r, ans d u = some r → answersQuestion q? r = true → responseSelect cfg r u = .reject →
+        dialSend cfg q? ans d u = ([u], .ok { r with recs := [] })) ∧
+    (∀ r k, ans d u = some r → answersQuestion q? r = true → responseSelect cfg r u = .next k →
+        dialSend cfg q? ans d u =
+          (u :: (dialSend cfg q? ans (d + 1) (.up k)).1, (dialSend cfg q? ans (d + 1) (.up k)).2)) ∧
+    (∀ r e, ans d u = some r → answersQuestion q? r = true → responseSelect cfg r u = .err e →
+        dialSend cfg q? ans d u = ([u], .error e)) := by
+  refine ⟨?_, ?_, ?_, ?_, ?_, ?_⟩
+  · intro h0; rw [dialSend_step cfg q? ans d u h, h0]
+  · intro r h0 ha; rw [dialSend_step cfg q? ans d u h, h0]; simp [ha]
+  · intro r h0 ha h1; rw [dialSend_step cfg q? ans d u h, h0]; simp [ha, h1]
+  · intro r h0 ha h1; rw [dialSend_step cfg q? ans d u h, h0]; simp [ha, h1]
+  · intro r k h0 ha h1; rw [dialSend_step cfg q? ans d u h, h0]; simp [ha, h1]
+  · intro r e h0 ha h1; rw [dialSend_step cfg q? ans d u h, h0]; simp [ha, h1]
 
 /-- The final message is what the client gets, and a healthy one is stored under the cache key of
 the ORIGINAL request route (also when another upstream finally answered, also when emptied). -/
 theorem final_answer_is_relayed_and_cached (cfg : Cfg) (cache : Cache) (dst : Nat) (q : Question)
     (ans : Upstreams) (u : UpRef) (t : List UpRef) (r : Resp) (h : requestSelect cfg q = .to u)
     (hmiss : cache.lookup ⟨canonName q.name, q.qtype, scopeOf dst u⟩ = none)
-    (hd : dialSend cfg ans 0 u = (t, .ok r)) :
+    (hd : dialSend cfg (some q) ans 0 u = (t, .ok r)) :
     let o := handle cfg cache dst false (some q) ans
     o.reply = .answers r.recs r.rcodeOk ∧
     (r.cacheable = true → o.cache.lookup ⟨canonName q.name, q.qtype, scopeOf dst u⟩ = some r.recs) ∧
@@ -289,8 +300,8 @@ is a total function — accepted by Lean's termination checker — is the "canno
 theorem reask_bounded (cfg : Cfg) (cache : Cache) (dst : Nat) (isResp : Bool) (q? : Option Question)
     (ans : Upstreams) :
     (handle cfg cache dst isResp q? ans).trace.length ≤ maxDnsLookupDepth := by
-  have hb : ∀ u, (dialSend cfg ans 0 u).1.length ≤ maxDnsLookupDepth :=
-    fun u => dialSend_trace_le cfg ans maxDnsLookupDepth 0 u rfl
+  have hb : ∀ u, (dialSend cfg q? ans 0 u).1.length ≤ maxDnsLookupDepth :=
+    fun u => dialSend_trace_le cfg q? ans maxDnsLookupDepth 0 u rfl
   cases isResp with
   | true => simp [handle]
   | false =>
@@ -305,31 +316,33 @@ theorem reask_bounded (cfg : Cfg) (cache : Cache) (dst : Nat) (isResp : Bool) (q
       | some recs => simp
       | none =>
         have := hb u
-        cases hd : dialSend cfg ans 0 u with
+        cases hd : dialSend cfg q? ans 0 u with
         | mk t r => rw [hd] at this; cases r <;> simpa using this
 
 /-- A rule set that sends every answer on to another upstream ends with the documented error
 after exactly `MaxDnsLookupDepth` queries, whatever the upstreams answer. -/
-theorem bouncing_ends_with_error (cfg : Cfg) (ans : Upstreams) (u : UpRef)
-    (hall : ∀ d v, ∃ r k, ans d v = some r ∧ responseSelect cfg r v = .next k) :
-    (dialSend cfg ans 0 u).2 = .error .tooDeep ∧ (dialSend cfg ans 0 u).1.length = maxDnsLookupDepth := by
+theorem bouncing_ends_with_error (cfg : Cfg) (q? : Option Question) (ans : Upstreams) (u : UpRef)
+    (hall : ∀ d v, ∃ r k, ans d v = some r ∧ answersQuestion q? r = true ∧ responseSelect cfg r v = .next k) :
+    (dialSend cfg q? ans 0 u).2 = .error .tooDeep ∧
+    (dialSend cfg q? ans 0 u).1.length = maxDnsLookupDepth := by
   have step : ∀ d v, d < maxDnsLookupDepth → ∃ k,
-      dialSend cfg ans d v = (v :: (dialSend cfg ans (d + 1) (.up k)).1, (dialSend cfg ans (d + 1) (.up k)).2) := by
+      dialSend cfg q? ans d v =
+        (v :: (dialSend cfg q? ans (d + 1) (.up k)).1, (dialSend cfg q? ans (d + 1) (.up k)).2) := by
     intro d v hd
-    obtain ⟨r, k, h0, h1⟩ := hall d v
-    exact ⟨k, (response_action cfg ans d v hd).2.2.2.1 r k h0 h1⟩
+    obtain ⟨r, k, h0, ha, h1⟩ := hall d v
+    exact ⟨k, (response_action cfg q? ans d v hd).2.2.2.2.1 r k h0 ha h1⟩
   obtain ⟨k0, e0⟩ := step 0 u (by decide)
   obtain ⟨k1, e1⟩ := step 1 (.up k0) (by decide)
   obtain ⟨k2, e2⟩ := step 2 (.up k1) (by decide)
-  have e3 := dialSend_deep cfg ans 3 (.up k2) (by decide)
+  have e3 := dialSend_deep cfg q? ans 3 (.up k2) (by decide)
   rw [e0, e1, e2, e3]
   exact ⟨rfl, rfl⟩
 
 -- non-vacuity: `upstream(u0) -> u1; upstream(u1) -> u0; fallback: u0` sends EVERY answer on.
 example : ∀ (d : Nat) (v : UpRef), ∃ r k, (fun _ _ => some Ex.respLoop : Upstreams) d v = some r ∧
-    responseSelect Ex.bounceCfg r v = .next k := by
+    answersQuestion (some Ex.qLoop) r = true ∧ responseSelect Ex.bounceCfg r v = .next k := by
   intro d v
-  refine ⟨Ex.respLoop, if v = .up 0 then 1 else 0, rfl, ?_⟩
+  refine ⟨Ex.respLoop, if v = .up 0 then 1 else 0, rfl, by decide, ?_⟩
   have hc : compile Ex.bounceRules 0 = some Ex.bounceCfg.resp := by decide
   have hup : ∀ o, (o = 0 ∨ ∃ x ∈ Ex.bounceRules, o = x.out) → o < Ex.bounceCfg.nUp ∨ o = 0xFC ∨ o = 0xFD := by
     intro o h
